@@ -7,6 +7,7 @@
 //!   `n=<events delivered>/<events the filter accepted> rej=<rejected> err=<filter errors>/<errors the handler saw> empty=<empty batches>`
 use std::{io::{BufRead, Write}, path::{Path, PathBuf}, sync::{Arc, Mutex, atomic::{AtomicUsize, Ordering::SeqCst}}, time::Duration};
 use watchexec::{error::RuntimeError, filter::Filterer, sources::fs::Watcher as Kind, Config, WatchedPath, Watchexec};
+#[allow(unused_imports)] use watchexec::Config as _Cfg;
 use watchexec_events::{Event, Priority};
 
 #[derive(Debug, Default)]
@@ -33,17 +34,20 @@ async fn run_case(id: String, kind: String, mode: String, ops: Vec<String>) -> S
     let counters = Arc::new(Counters::default());
     let delivered: Arc<Mutex<Vec<Vec<String>>>> = Default::default();      // per event: its paths
     let (nev, nempty, nerr) = (Arc::new(AtomicUsize::new(0)), Arc::new(AtomicUsize::new(0)), Arc::new(AtomicUsize::new(0)));
-    let wx = Watchexec::default();
+    // mode Q: an event queue of 2 and a slow action handler — the watcher's callback overflows the queue (runtime errors, events lost)
+    let slow = mode == "Q";
+    let wx = if slow { let mut c = Config::default(); c.event_channel_size = 2; Watchexec::with_config(c).unwrap() } else { Watchexec::default() };
     wx.config.throttle(Duration::from_millis(15));
     wx.config.filterer(Scripted(counters.clone()));
     wx.config.file_watcher(if kind == "P" { Kind::Poll(Duration::from_millis(40)) } else { Kind::Native });
     wx.config.on_error({ let n = nerr.clone(); move |_h| { n.fetch_add(1, SeqCst); } });
     wx.config.on_action({ let (d, root, nev, nempty) = (delivered.clone(), root.clone(), nev.clone(), nempty.clone()); move |action| {
         if action.events.is_empty() { nempty.fetch_add(1, SeqCst); }
+        if slow { std::thread::sleep(Duration::from_millis(60)); }
         for e in action.events.iter() { nev.fetch_add(1, SeqCst); d.lock().unwrap().push(e.paths().map(|(p, _)| rel(&root, p)).collect()); }
         action } });
     let paths: Vec<WatchedPath> = match mode.as_str() {
-        "R" => vec![WatchedPath::recursive(root.clone())],
+        "R" | "Q" => vec![WatchedPath::recursive(root.clone())],
         "N" => vec![WatchedPath::non_recursive(root.clone())],
         _ => vec![WatchedPath::recursive(root.join("sub")), WatchedPath::non_recursive(root.join("a.txt"))],
     };
@@ -63,6 +67,8 @@ async fn run_case(id: String, kind: String, mode: String, ops: Vec<String>) -> S
             "mv" => std::fs::rename(p(1), p(2)),
             "mk" => std::fs::create_dir(p(1)),
             "rd" => std::fs::remove_dir(p(1)),
+            // a burst of creations with no pause: far more events than the queue holds
+            "burst" => { for i in 0..f[1].parse::<usize>().unwrap() { let _ = std::fs::write(root.join(format!("q{i}.txt")), b"q"); } tokio::time::sleep(Duration::from_millis(700)).await; Ok(()) }
             _ => return "bad-op".into(),
         };
         let ok = r.is_ok();
